@@ -183,6 +183,10 @@ def t_sampling(simulator):
         names = [e[0] for e in epi]
         h.prove(names.count('daily') == 1 and 'terminate' in names and names.index('daily') > max(j for j, n in enumerate(names) if n == 'terminate'),
                 f'sampling.{simulator}.one-final-sample-after-the-strategies-terminated', {'epilogue': names})
+        # the closing market order a strategy submits when it terminates is executed before anything else (the next route's
+        # termination, the final equity sample): every terminate is directly followed by the market-order flush
+        ok = all(j + 1 < len(names) and names[j + 1] == 'flush' for j, n in enumerate(names) if n == 'terminate')
+        h.prove(ok, f'sampling.{simulator}.each-termination-is-followed-by-the-market-order-flush', {'epilogue': names})
     return t
 
 
